@@ -19,7 +19,7 @@ import (
 	"verif.local/engine/evidence"
 )
 
-const c09EngMaxViolationsPerPart = 3
+const c09EngMaxViolationsPerPart = 1 // per shard: simplest-first enumeration, so this is the shard's minimal case
 
 type c09Seen struct {
 	stub, method string
